@@ -56,9 +56,9 @@ def obligations():
                         and v[3][0][:1] == ("callres",) and v[3][0][2] == "self._compute_kernel" and v[3][0][3] == (("var", "X"),))
                 ob(cls, "predict_proba", "== _infer(_compute_kernel(X))", good, {"ret": fx.show(v)})
             else:
-                good = (v[:1] == ("callres",) and v[2] == "self._infer" and len(v[3]) == 1
-                        and _validated_as_is(v[3][0])
-                        and dict(v[4]).get("retain") == fx.C(False))
+                # _infer(X, retain=False) and _infer(X, False) are one canonical call (keywords continuing the positional prefix are positional)
+                good = (v[:1] == ("callres",) and v[2] == "self._infer" and len(v[3]) == 2 and not v[4]
+                        and _validated_as_is(v[3][0]) and v[3][1] == fx.C(False))
                 ob(cls, "predict_proba", "== _infer(check_array(X), retain=False)", good, {"ret": fx.show(v)})
                 ob(cls, "predict_proba", "check_is_fitted(self) first", _first_call_is_check_fitted(st))
         # predict
